@@ -43,6 +43,17 @@ def cases(tier, rng, schema, feats):
             for _ in range(10):
                 out.append(f"C15.rtv.{n}\trtv\t{t}\t{gen.show(g.named_val(t))}")
                 n += 1
+    # entity names that fill their capacity exactly (and one / two bytes less), ending in a character of every UTF-8
+    # lead-byte class: these go through the truncation helper although nothing has to be cut
+    for k, c in enumerate(gen.utf8_reps()):
+        w = len(c.encode())
+        for total in (64, 63, 62):
+            txt = ("n" * (total - w) + c).encode().hex()
+            if k % 2 == 0:
+                out.append(f"C15.rtv.{n}\trtv\twebauthn::PublicKeyCredentialUserEntity\t{{display_name=S(s{txt});icon=N;id=b01;name=S(s{txt})}}")
+            else:
+                out.append(f"C15.rtv.{n}\trtv\twebauthn::PublicKeyCredentialRpEntity\t{{icon=N;id=s6578616d706c652e636f6d;name=S(s{txt})}}")
+            n += 1
     gc = gen.Gen(schema, rng, tier, canonical=True)
     for t in ENCTY_TYPES + RESER_ONLY_TYPES:
         if t not in schema:
